@@ -75,6 +75,7 @@ struct PI2F<S, D> {
 impl<S, D> PI2F<S, D>
 where
     S: IntS + FromSample<D>,
+    <S as Sample>::Float: 'static,
     D: FloatS + FromSample<S>,
 {
     #[inline]
@@ -85,6 +86,19 @@ where
         let g2: D = D::from_sample(s);
         let g3: D = (self.conv)(s);
         let w = want.bits64();
+        // route 4, where the destination is the source's associated `Float` format: the
+        // `to_float_sample` method (a provided trait method that an impl may override)
+        if std::any::TypeId::of::<D>() == std::any::TypeId::of::<<S as Sample>::Float>() {
+            let g4 = s.to_float_sample();
+            let b4 = (&g4 as &dyn std::any::Any).downcast_ref::<D>().map(|d| d.bits64()).unwrap_or(w);
+            if b4 != w {
+                rep.violation(
+                    &format!("i2f|{}->{}|to_float_sample_route", S::FMT.name, D::NAME),
+                    format!("{}({}).to_float_sample() has bits {:x} but the spec (and the other routes: {:x}) is {:x}", S::FMT.name, raw, b4, g1.bits64(), w),
+                    format!("dir=i2f;src={};dst={};v={}", S::FMT.name, D::NAME, raw),
+                );
+            }
+        }
         if g1.bits64() != w || g2.bits64() != w || g3.bits64() != w {
             let a = g1.as_f64();
             let class = if !(a >= -1.0 && a <= 1.0) { "outside_unit_interval" } else { "not_correctly_rounded" };
@@ -125,6 +139,7 @@ where
 impl<S, D> I2F for PI2F<S, D>
 where
     S: IntS + FromSample<D>,
+    <S as Sample>::Float: 'static,
     D: FloatS + FromSample<S>,
 {
     fn src(&self) -> IntFmt {
